@@ -117,6 +117,7 @@ struct Runner {
     LoopPeer peer;
     bool verbose;
     qint64 executions = 0;
+    QStringList lastDelivered;  // canonical form of every non-null delivery of the last execution
 
     explicit Runner(Ctx &c) : ctx(c), verbose(c.optInt("verbose", 0) != 0) { }
 
@@ -171,6 +172,7 @@ struct Runner {
         }
         ctx.reset(caseId, { { "sid", def.sid }, { "ref", isRef }, { "src", src }, { "cuts", jc }, { "started", started }, { "up", up } });
         ++executions;
+        lastDelivered.clear();
         bool ok = up;
         qint64 written = 0;
         int nd = 0, nulls = 0;
@@ -191,6 +193,9 @@ struct Runner {
                 }
                 dl.append(o);
                 g.k == "null" ? ++nulls : ++nd;
+                if (g.k != "null") {
+                    lastDelivered << (g.k == "close" ? QString("close") : g.k + " " + g.x);
+                }
             }
             QJsonObject o { { "nd", nd }, { "nulls", nulls }, { "rr", rr } };
             if (!ok) {
@@ -306,4 +311,47 @@ QXV_DRIVER(framing)
         }
     }
     return 0;
+}
+
+// qxv framing_demo — stand-alone demonstration of the C03 defects of the pinned tree: three small
+// valid streams, each delivered in one read and in one particular 2-way split, through the same
+// loopback rig. Prints what XmppSocket delivered; exit 1 if any split run differs from its one-read run.
+QXV_DRIVER(framing_demo)
+{
+    const QByteArray hdr = "<stream:stream xmlns='jabber:client' xmlns:stream='http://etherx.jabber.org/streams' version='1.0'";
+    struct Demo {
+        const char *what;
+        QByteArray bytes;
+        int cut;
+    };
+    const QByteArray s1 = hdr + " id='s1'><message><body>gr\xc3\xbc\xc3\x9f""e</body></message>";
+    const QByteArray s2 = hdr + " id='a>b'><r xmlns='urn:xmpp:sm:3'/></stream:stream>";
+    const QByteArray s3 = hdr + " id='s3'><r xmlns='urn:xmpp:sm:3'/></stream:stream>\r\n";
+    const QVector<Demo> demos {
+        { "read boundary inside a 2-byte UTF-8 character", s1, int(s1.indexOf("\xc3\xbc")) + 1 },
+        { "'>' inside a header attribute value, read boundary after the header", s2, int(s2.indexOf("<r ")) },
+        { "CR LF after the close tag, read boundary before it", s3, int(s3.size()) - 2 },
+    };
+    Runner r(ctx);
+    r.verbose = true;
+    int differing = 0, i = 0;
+    for (const auto &d : demos) {
+        StreamDef def;
+        def.sid = QString("demo%1").arg(++i);
+        def.bytes = d.bytes;
+        def.model = QJsonObject { { "n", d.bytes.size() }, { "elems", QJsonArray() }, { "chars", QJsonArray() }, { "sync", QJsonArray() } };
+        if (!r.run(def, def.sid + "/ref", {}, true, "ref")) {
+            return 2;
+        }
+        const auto one = r.lastDelivered;
+        if (!r.run(def, def.sid + "/1", { d.cut }, false, "demo")) {
+            return 2;
+        }
+        const auto split = r.lastDelivered;
+        printf("%s\n  stream (%d bytes): %s\n  one read       : %s\n  split at byte %d: %s\n  => %s\n", d.what, int(d.bytes.size()),
+               d.bytes.toPercentEncoding(" <>='/:.-_", "", '%').constData(), qPrintable(one.join(" | ")), d.cut, qPrintable(split.join(" | ")),
+               one == split ? "same" : "DIFFERENT");
+        differing += one != split;
+    }
+    return differing ? 1 : 0;
 }
